@@ -28,8 +28,11 @@ pub enum Fate {
     E999,
     /// acknowledgement flagged read-only (`ro = 1`): the sender declares that it does not serve requests
     AckRo,
+    /// acknowledgement that carries another node id than the lookup answer of that address did (the node took a
+    /// new id in between - a re-key after confirming its address): right address, right transaction id
+    AckNewId,
 }
-pub const FATES: [Fate; 9] = [Fate::Ack, Fate::Lost, Fate::Late, Fate::E203, Fate::E205, Fate::E301, Fate::E302, Fate::E999, Fate::AckRo];
+pub const FATES: [Fate; 10] = [Fate::Ack, Fate::Lost, Fate::Late, Fate::E203, Fate::E205, Fate::E301, Fate::E302, Fate::E999, Fate::AckRo, Fate::AckNewId];
 
 #[derive(Default)]
 struct Obs {
@@ -86,6 +89,12 @@ pub fn scenario(r: &mut Report, c: &Case) {
             obs2.borrow_mut().stores.push((i, q.arg_bytes("token").unwrap_or(&[]).to_vec(), name));
             let (bytes, delay) = match fates2[i] {
                 Fate::Ack => (response(&q.t, B::dict(vec![("id", B::bytes(&me))]), Some(&d.from), Some(&VERSION_RS6)).encode(), 0),
+                Fate::AckNewId => {
+                    let mut other = me;
+                    other[0] ^= 0xa5;
+                    other[19] ^= 0x5a;
+                    (response(&q.t, B::dict(vec![("id", B::bytes(&other))]), Some(&d.from), Some(&VERSION_RS6)).encode(), 0)
+                }
                 Fate::Lost => return true,
                 Fate::Late => (response(&q.t, B::dict(vec![("id", B::bytes(&me))]), Some(&d.from), Some(&VERSION_RS6)).encode(), 4 * SEC),
                 Fate::E203 => (error(&q.t, 203, "bad token").encode(), 0),
@@ -167,7 +176,7 @@ pub fn scenario(r: &mut Report, c: &Case) {
     for (i, _, _) in &o.stores {
         *per_endpoint.entry(*i).or_insert(0) += 1;
         match fates[*i] {
-            Fate::Ack => acks += 1,
+            Fate::Ack | Fate::AckNewId => acks += 1,
             Fate::E301 => e301 += 1,
             Fate::E302 => e302 += 1,
             _ => {}
@@ -250,7 +259,7 @@ pub fn scenario(r: &mut Report, c: &Case) {
         let (mut acks, mut e301, mut e302) = (0, 0, 0);
         for (i, _, _) in &o.stores {
             match fates[*i] {
-                Fate::Ack | Fate::Late => acks += 1,
+                Fate::Ack | Fate::Late | Fate::AckNewId => acks += 1,
                 Fate::E301 => e301 += 1,
                 Fate::E302 => e302 += 1,
                 _ => {}
@@ -840,7 +849,7 @@ pub fn run(a: &Args) -> Report {
                     continue;
                 }
                 let mut x = assignment;
-                let fates: Vec<Fate> = (0..n).map(|_| { let f = FATES[(x % 9) as usize]; x /= 9; f }).collect();
+                let fates: Vec<Fate> = (0..n).map(|_| { let f = FATES[(x % 10) as usize]; x /= 10; f }).collect();
                 run_case(&mut r, Case { seed: mix(a.seed, code), kind, fates, tokenless: vec![], n, default_fate: Fate::Ack, extra_rounds: 0, tokenless_mode: 0 });
                 r.count("exhaustive_assignments");
             }
